@@ -437,6 +437,14 @@ def stream_s2(cx, rate0_only=False):
                 continue
             if " ok " in out:
                 ok += 1
+                if cx.prop == "C17":
+                    cx.cov["evaluations"] += 1
+                    o = toks(out)
+                    if int(o.get("steps", "0")) >= 3:
+                        cx.seen.add(hashlib.sha256(r.get("result", "").encode()).hexdigest())
+                        cx.cov["distinct_nontrivial"] = len(cx.seen)
+                        cx.sample(dict(case=case_of(req)[:200], steps_replayed=int(o.get("steps", "0")), body=o.get("body"), tail=o.get("tail"),
+                                       every_step="model state = implementation state (digest) and, where the stack is short enough to be sent, implementation state ~ reference state directly"))
             elif " FAIL " in out:
                 det = out.split(" FAIL ", 1)[1]
                 if cx.prop == "C17" and det.startswith("C17-direct"):
